@@ -19,7 +19,7 @@ ID = "C09"
 LEVEL = "exploration"
 TIERS = {
   "quick": {"runs": 96, "chunk": 6, "budget_s": 420, "timeout_s": 300},
-  "thorough": {"runs": 1600, "chunk": 10, "budget_s": 3000, "timeout_s": 300},
+  "thorough": {"runs": 384, "chunk": 8, "budget_s": 1500, "timeout_s": 300},
 }
 RULE = ("one evaluation = one compared step of the target world (clause a: twin batches with different neighbours, bit-exact; "
         "clause b: batch vs solo / permuted batch, counts exact + floats to tolerance); runs are generated from (seed, index): model, "
